@@ -31,7 +31,21 @@ from . import mfcommon as mc
 
 logging.getLogger("fairlearn").setLevel(logging.ERROR)
 
-TOL = 1e-9
+# Tolerances (review R3), measured on the unchanged tree (4200 generated cases, seeds 0..3, all streams):
+#   implementation vs Fraction oracle: max relative deviation 6.7e-16 (moment gamma)          -> TOL    = 5e-14
+#   variant vs plain-list baseline:    0.0 for every container variant and relabelling (identical code path, bit-equal),
+#                                      3.3e-16 for joint row permutations (order of a float sum) -> VB_TOL = 1e-14
+#   weights seen by the base learner vs exact relabelling: max absolute deviation 2.4e-15      -> LEARNER_TOL = 5e-14
+#   EG mixture / ThresholdOptimizer predict-time rule: 0.0                                     -> 1e-14 (floor of 45 ulp)
+# (they were 1e-9 / 1e-7 / 1e-12 before: 5-8 orders of magnitude wider than anything observed)
+TOL = 5e-14
+#   EG mixture / ThresholdOptimizer predict-time rule: 0.0                                     -> 1e-14 (floor of 45 ulp)
+# (they were 1e-9 / 1e-7 / 1e-12 before: 6-8 orders of magnitude wider than anything observed)
+TOL = 5e-14
+VB_TOL = 1e-14
+LEARNER_TOL = 5e-14
+MIX_TOL = 1e-14
+LIVE_EPS = 1e-9          # a relabelled row counts as carrying weight when its exact weight exceeds this (not a tolerance)
 IDX_KINDS = ["default", "shuffled", "offset", "dup", "string"]
 PANDAS = ("ser", "ser_nn", "df", "df0")
 _COUNTER = itertools.count()
@@ -1098,13 +1112,13 @@ class RedEntry(EPBase):
         for j, ((lam, w), p) in enumerate(zip(ws, out["predictors"])):
             yr, wr = ro.relabel(w)
             wn = self.normalise(wr, P.n)
-            live = [i for i in range(P.n) if wn[i] > TOL]
+            live = [i for i in range(P.n) if wn[i] > LIVE_EPS]
             if p["dummy"]:
                 continue
 
             def matches(r):
                 return len(r["y"]) == P.n and all(r["y"][i] == yr[i] for i in live) and \
-                    all(abs(r["w"][i] - float(wn[i])) <= 1e-7 for i in range(P.n))
+                    all(abs(r["w"][i] - float(wn[i])) <= LEARNER_TOL * max(1.0, abs(float(wn[i]))) for i in range(P.n))
             cand = [rec.pop(0)] if (ordered and rec) else rec
             if not any(matches(r) for r in cand):
                 probs.append(Problem("property", f"predictor {j}: no call of the base learner received the relabelled / reweighted "
@@ -1164,7 +1178,7 @@ class EGEntry(RedEntry):
         # the reported pmf is the weights_-mixture of the predictors' training predictions
         n = len(base["y"])
         mix = [sum(w * p["train"][i] for w, p in zip(out["weights"], out["predictors"])) for i in range(n)]
-        if any(abs(a - b) > 1e-7 for a, b in zip(mix, out["pmf1"])):
+        if any(abs(a - b) > MIX_TOL for a, b in zip(mix, out["pmf1"])):
             probs.append(Problem("property", f"_pmf_predict {out['pmf1'][:6]} is not the weights_ mixture {mix[:6]} of the "
                                              f"predictors at the same POSITIONS", "C12.eg.pmf_positional"))
         return probs
@@ -1331,7 +1345,7 @@ class TOEntry(EPBase):
         # predict-time rows: the rule applied to a row is the rule of the group at the same POSITION
         for j, (g, s) in enumerate(base["prows"]):
             want = float(tc.prob_of_rule(out["rules"][str(g)], F(s)))
-            if abs(out["ppmf1"][j] - want) > tc.TOL:
+            if abs(out["ppmf1"][j] - want) > MIX_TOL:
                 probs.append(Problem("property", f"_pmf_predict row {j} (group {g}, score {s}) = {out['ppmf1'][j]}; the fitted rule "
                                                  f"of that group gives {want}", "C12.to.predict_positional"))
                 break
@@ -1585,6 +1599,7 @@ class ContEntry(EPBase):
                           "fresh": [bool(isinstance(r, pd.Series) and list(r.index) == list(range(n))) for r in (ry, rsf, rcf)]}
         except Exception as e:  # noqa: BLE001
             out["val"] = exc_token(e)
+        out["_rawpd"] = VarTok(json.dumps(self.raw_pandas(base, var)))
         try:
             fr_ = tomod._reformat_and_group_data(sf, y, sc).obj
             out["thr"] = {"cols": [col_out(fr_[tomod.SENSITIVE_FEATURE_KEY]), col_out(fr_[tomod.SCORE_KEY]),
@@ -1592,6 +1607,27 @@ class ContEntry(EPBase):
         except Exception as e:  # noqa: BLE001
             out["thr"] = exc_token(e)
         return out
+
+    RAW_ARG = "sf"
+
+    def raw_pandas(self, base, var):
+        """(review R3) what REAL pandas does with an unconverted labelled column: `frame[c] = Series(payload, index=labels)`
+        on a RangeIndex frame -- the operation `Cont.place (.labelled ..)` models (`C12.raw_series_is_label_sensitive`,
+        `raw_place_wf`, `raw_place_dup_raises`).  The lifted conversions of the clean tree never reach that branch, so
+        without this line the label-aligning half of the container model was compared with nothing.  None for arguments
+        without labels."""
+        spec = var[self.RAW_ARG]
+        if spec["c"] not in PANDAS:
+            return None
+        n = len(base["y"])
+        idx = mk_index(spec.get("i", "default"), n, spec.get("s", 0))
+        ser = pd.Series([float(v) for v in self.payload(base, self.RAW_ARG)], index=idx)
+        frame = pd.DataFrame(index=range(n))
+        try:
+            frame["c"] = ser
+        except ValueError as e:
+            return "err:dup" if "duplicate" in str(e) else "err:" + str(e)[:60]
+        return [col_out(frame["c"])]
 
     def _convs(self, var):
         val = [conv_for("_validate_and_reformat_input", a2) for _, a2 in self.ARGS_VAL]
@@ -1613,6 +1649,10 @@ class ContEntry(EPBase):
                                f"{proto.lst([KIND_CODE[var[a]['c']] for a in args])} "
                                f"{';'.join(proto.lst(label_codes(var[a], n)) for a in args)} "
                                f"{proto.mat([self.payload(base, a) for a in args])}"))
+        if var[self.RAW_ARG]["c"] in PANDAS:
+            a = self.RAW_ARG
+            lines.append(("cont.raw", f"cont.place {n} {CONV_CODE['raw']} {KIND_CODE[var[a]['c']]} "
+                                      f"{proto.lst(label_codes(var[a], n))} {proto.mat([self.payload(base, a)])}"))
         return lines
 
     @staticmethod
@@ -1650,6 +1690,12 @@ class ContEntry(EPBase):
                                          "C12.lifted_sites_drop_labels / positional_pairing"))
                 if not bad and "cols" in got and m != got["cols"]:
                     probs.append(Problem("correspondence", f"{fn} [{desc}] differs from the container model {m}", "C12.cont.place"))
+        if model is not None and "cont.raw" in model and "_rawpd" in out:
+            # model of pandas vs real pandas: neither side is fairlearn -> a disagreement is OUR machinery (exit 2)
+            m, real = self._parse(model["cont.raw"]), json.loads(out["_rawpd"])
+            if m != real:
+                probs.append(Problem("harness", f"Cont.place (raw, labelled) gives {m} but real pandas column assignment gives "
+                                                f"{real} for {self.RAW_ARG}={var[self.RAW_ARG]}"))
         if lifted_sites() is None:
             probs.append(Problem("correspondence", "the container-site lifter refuses the tree under test",
                                  "C12.lifted_sites_drop_labels"))
@@ -1663,6 +1709,16 @@ class ContEntry(EPBase):
 
     def tags(self, base):
         return ["cont.sites=" + ("clean" if sites_clean() else "raw-or-refused")]
+
+    def out_tags(self, out):
+        if "_rawpd" not in out:
+            return []
+        r = json.loads(out["_rawpd"])
+        if r is None:
+            return []
+        if isinstance(r, str):
+            return ["cont.raw-pandas=" + r]
+        return ["cont.raw-pandas=" + ("some-NaN" if "nan" in r[0] else "aligned")]
 
 
 # ===================================================================== the check
@@ -1739,12 +1795,25 @@ class CHECK(Check):
             "ExponentiatedGradient, GridSearch). Plus joint row permutations and bijective group relabellings (metrics, moments, "
             "ThresholdOptimizer; not the reductions: GridSearch's basis drops the last-SEEN group by design and EG's iterates "
             "amplify last-bit differences). "
+            "Generator restrictions (review R3): every feature column has >= 2 distinct values; moments: the first two rows "
+            "carry two different groups and the labels 0 and 1, integer group names are single digits (string order = numeric "
+            "order), 1..2 control values; reductions: >= 2 distinct feature values, both labels overall and in every group, "
+            "redcf: all four (group, control) cells occupied; ThresholdOptimizer: cases of C04's quantifier with <= 24 rows, "
+            "predict-time scores = a training score or that +-1/16; duplicated index labels come in pairs ((n-1-i)//2); "
+            "relabellings map the observed values onto fresh values of the same type in random order (strings incl. a space "
+            "and a non-ASCII letter; ints 20..59); the `ids` sample parameter is 2^i. Comparison: variant vs list run with "
+            "relative tolerance 1e-14 (measured: bit-equal for containers / relabelling, 3.3e-16 for permutations), vs the "
+            "Fraction oracle 5e-14 (measured 6.7e-16). A difference between two runs of fairlearn on the same data is a "
+            "PROPERTY failure (failing input = the case); the redcf stream and EG's counters / GridSearch's selection have no "
+            "other oracle than the list run. "
             "distinct = distinct (entry point, base, variant); non-trivial = some pandas argument with non-default labels, or a "
             "permutation / relabelling run")
     explanation = ("theorems over Model/Frame, Aggregate, MetricPool, Moments and Model/Perm.lean prove permutation and relabelling "
-                   "invariance of the models for all inputs; containers and index labels are glue outside the model and are "
-                   "covered by correspondence only: each variant must equal the list baseline (tolerance 1e-9 relative; identical "
-                   "code path expected), the Lean model on the positional zip (ops frame.eval, agg.eval, perm.fair, mom.*, thr.*) "
+                   "invariance of the models for all inputs; the container model (Model/Container.lean over the lifted site table) "
+                   "covers kinds and index labels per lifted site; that the sites are all the paths is "
+                   "covered by correspondence only: each variant must equal the list baseline (tolerance 1e-14 relative; identical "
+                   "code path, bit-equal measured), the Lean model on the positional zip (ops frame.eval, agg.eval, perm.fair, mom.*, "
+                   "thr.*, cont.place -- the latter also with conversion `raw` against a real pandas column assignment) "
                    "and the Fraction oracle on the positional zip, which is what decides `property` problems. For EG/GridSearch the "
                    "rows (x, relabelled y, weight) seen by a recording exact learner are compared with the model's relabelling for "
                    "the multiplier vector of each predictor.")
@@ -1892,11 +1961,19 @@ class CHECK(Check):
             if ep._i_impl(case["base"], out0) != ep._i_impl(b1, out1):
                 o["_tags"] = ["to.other-grid-index-after-transformation(tie)"]
                 a = b
-        d = first_diff(a, b)
+        d = first_diff(a, b, tol=VB_TOL)
         if d and not any(p.kind == "property" for p in probs):
+            # (review R3) The property itself is RELATIONAL: "identical results whether the data arrive as ... / after a
+            # joint permutation / up to the renaming".  Two runs of fairlearn on the same data that differ ARE a concrete
+            # failing input of C12 -- also where no first-principles oracle covers the observable (EG's gap / iteration
+            # counters, GridSearch's selection and predictions, the redcf stream, ThresholdOptimizer.predict).  It used to
+            # be filed as `correspondence`, i.e. reported as "no failing input found" although the case at hand is one.
             rel = {"container": "C12.variant_eq_baseline", "perm": "C12.perm_invariance(impl)",
                    "relabel": "C12.rename_equivariant(impl)"}[case["mode"]]
-            probs.append(Problem("correspondence", f"{where} differs from the plain-list baseline run at {d}", rel))
+            what = {"container": "the same data handed over in other containers / with other index labels",
+                    "perm": "the jointly permuted rows", "relabel": "the bijectively relabelled groups"}[case["mode"]]
+            probs.append(Problem("property", f"{where} {what} give a result that differs from the plain-list run of the same "
+                                             f"call at {d}", rel))
         return probs
 
     def _describe(self, case):
@@ -1931,6 +2008,8 @@ class CHECK(Check):
                 tags.append("variant-raised=" + out["exc"])
             if isinstance(out, dict):
                 tags += out.get("_tags", [])
+                if hasattr(ep, "out_tags"):
+                    tags += ep.out_tags(out)
         if series_pred_finding(case):
             tags.append("shape=F16(predictions as X-labelled Series)")
         nontriv = case["mode"] != "container" or npd > 0
